@@ -294,7 +294,7 @@ Proof.
   - (* LActivatePending *)
     dasy s t Ea. dlist todo.
     assert (Hts : ts s t = Active) by (destruct (HJ t) as (_ & HB' & _); apply HB'; rewrite Ea; reflexivity).
-    rewrite Hts. cbn.
+    rewrite Hts. change (cas [cas_pending] Active) with (Some Pending). cbv beta iota zeta.
     apply (mu_lt g s _ 2); [|lia|cbn -[Nat.sub]; lia].
     set (s1 := set_sendq (set_numPending (set_ts s (upd (ts s) t Pending)) (numPending s + 1)%Z) (t :: sendq s)).
     match goal with |- sumn _ (tp g ?X) + _ + _ <= _ => set (s2 := X) end.
@@ -315,8 +315,8 @@ Proof.
     pose proof (lw_task_done (set_asy s (upd (asy s) t ADone))).
     assert (lw (set_asy s (upd (asy s) t ADone)) = lw s) by reflexivity. lia.
   - (* LSendTask *)
-    apply (mu_lt g s _ 1); [|lia|cbn -[Nat.sub]; destruct (closed s); cbn -[Nat.sub]; lia].
-    cbn. destruct (closed s) eqn:Ec.
+    change (closed (set_sendq s (remove1 t (sendq s)))) with (closed s). cbv zeta.
+    destruct (closed s) eqn:Ec; (apply (mu_lt g s _ 1); [|lia|cbn -[Nat.sub]; lia]).
     + assert (sumn (g_n g) (tp g (set_sendq s (remove1 t (sendq s)))) <= sumn (g_n g) (tp g s)) by (apply sumn_le; intros; apply Nat.eq_le_incl, tp_frame; reflexivity).
       unfold lw in *. cbn. len_rm. lia.
     + assert (sumn (g_n g) (tp g (set_actq (set_sendq s (remove1 t (sendq s))) (t :: actq s))) <= sumn (g_n g) (tp g s)) by (apply sumn_le; intros; apply Nat.eq_le_incl, tp_frame; reflexivity).
@@ -338,12 +338,11 @@ Proof.
     unfold lw in *. cbn. len_rm. lia.
   - (* LBuildFail *)
     apply (mu_lt g s _ 1); [|lia|cbn -[Nat.sub]; autorewrite with proj; cbn -[Nat.sub]; lia].
-    set (s1 := set_trace (set_finishing (set_building s (remove1 t (building s))) (t :: finishing s)) (OEnd t RFailed :: trace s)).
-    assert (sumn (g_n g) (tp g (set_ts (log_fail g s1 false) (upd (ts (log_fail g s1 false)) t build_fail_set))) <= sumn (g_n g) (tp g s)).
-    { apply sumn_le; intros x _. rewrite !tp_eq. cbn. autorewrite with proj. cbn. unfold upd. destruct (Nat.eqb x t); cbn; unfold spot; cbn; lia. }
-    assert (lw (set_ts (log_fail g s1 false) (upd (ts (log_fail g s1 false)) t build_fail_set)) = lw s1).
-    { unfold lw. cbn. autorewrite with proj. reflexivity. }
-    assert (lw s1 + 1 = lw s) by (unfold lw, s1; cbn; len_rm; lia).
+    match goal with |- sumn _ (tp g ?X) + _ + _ <= _ => set (s2 := X) end.
+    assert (sumn (g_n g) (tp g s2) <= sumn (g_n g) (tp g s)).
+    { apply sumn_le; intros x _. rewrite !tp_eq. unfold s2. cbn. autorewrite with proj. cbn. unfold upd. destruct (Nat.eqb x t); cbn; unfold spot; cbn; lia. }
+    assert (lw s2 + 1 = lw s).
+    { unfold lw, s2. cbn. autorewrite with proj. cbn. len_rm. lia. }
     lia.
   - (* LFinishBuild *)
     apply (mu_lt g s _ 1); [|lia|cbn -[Nat.sub]; lia].
@@ -380,10 +379,10 @@ Qed.
 Theorem run_length_bound : forall g ls s, run g (init g) ls = Some s -> length ls + mu g s <= mu_bound g.
 Proof.
   intros g ls. induction ls as [|l r IH] using rev_ind; intros s Hrun.
-  - cbn in Hrun. inversion Hrun. subst. cbn. apply mu_init.
+  - cbn in Hrun. inversion Hrun. subst. cbn [length]. pose proof (mu_init g). lia.
   - rewrite run_app in Hrun. destruct (run g (init g) r) as [s'|] eqn:Hr; [|discriminate].
     cbn in Hrun. destruct (enabled g s' l) eqn:He; [|discriminate]. inversion Hrun. subst.
-    specialize (IH s' eq_refl). rewrite app_length. cbn.
+    specialize (IH s' eq_refl). rewrite app_length. cbn [length].
     assert (HJ : forall t, J s' t) by (apply (J_reachable g); exists r; exact Hr).
     pose proof (mu_step g s' l HJ He). lia.
 Qed.
